@@ -58,9 +58,15 @@ ACCESSORS = {
     'diffvalues': (lambda etl, t: etl.diffvalues(t, [['k']], 'k'), (set(), set())),
     'listoflists': (lambda etl, t: etl.listoflists(t), [['k', 'a', 'v']]),
     'tupleoftuples': (lambda etl, t: etl.tupleoftuples(t), (('k', 'a', 'v'),)),
-    'look': (lambda etl, t: 'k' in str(etl.look(t)) and 'a' in str(etl.look(t)), True),
-    'lookall': (lambda etl, t: 'v' in str(etl.lookall(t)), True),
-    'see': (lambda etl, t: str(etl.see(t)).startswith('k'), True),
+    'look': (lambda etl, t: str(etl.look(t)), '+---+---+---+\n| k | a | v |\n+===+===+===+\n'),
+    'lookall': (lambda etl, t: str(etl.lookall(t)), '+---+---+---+\n| k | a | v |\n+===+===+===+\n'),
+    'see': (lambda etl, t: str(etl.see(t)), 'k: \na: \nv: \n'),
+    'look:simple:text': (lambda etl, t: str(etl.look(t, style='simple')), '=  =  =\nk  a  v\n=  =  =\n=  =  =\n'),
+    'look:minimal:text': (lambda etl, t: str(etl.look(t, style='minimal')), 'k  a  v\n'),
+    'repr:text': (lambda etl, t: repr(etl.wrap(t)), '+---+---+---+\n| k | a | v |\n+===+===+===+\n'),
+    'str:text': (lambda etl, t: str(etl.wrap(t)), '+---+---+---+\n| k | a | v |\n+===+===+===+\n'),
+    'repr_html:text': (lambda etl, t: etl.wrap(t)._repr_html_(),
+                       "<table class='petl'>\n<thead>\n<tr>\n<th>k</th>\n<th>a</th>\n<th>v</th>\n</tr>\n</thead>\n<tbody>\n</tbody>\n</table>\n"),
     'look:simple': (lambda etl, t: 'k' in str(etl.look(t, style='simple')) and 'v' in str(etl.look(t, style='simple')), True),
     'look:minimal': (lambda etl, t: 'k' in str(etl.look(t, style='minimal')), True),
     'lookall:simple': (lambda etl, t: 'a' in str(etl.lookall(t, style='simple')), True),
